@@ -122,10 +122,15 @@ def judge (prop : String) (j : Json) : R Verdict := do
   let gen ← str (← field j "gen")
   let tx ← parseTx (← field j "tx")
   let mainnet ← bool (← field j "mainnet")
-  let cm ← bool (← field j "cost_models")
+  let cmj ← field j "cost_models"
+  let cms : List Nat := match cmj with
+    | .bool true => [0, 1, 2]
+    | .bool false => []
+    | .arr xs => xs.toList.filterMap (·.getNat?.toOption)
+    | _ => []
   let obs ← field j "obs"
   let key := fnv ((fieldD j "tx").compress ++ toString mainnet)
-  let env : CompileEnv := { mainnet, costModels := if cm then [0, 1, 2] else [] }
+  let env : CompileEnv := { mainnet, costModels := cms }
   let mut corr : List String := []
   let mut spec : List String := []
   let mut tags : List String := [gen]
